@@ -103,6 +103,12 @@ let fparse_legacy (l : BinNums.coq_N list) : BinNums.coq_N list option =
   if Stdlib.List.for_all (fun c -> int_of_n c < 128) l && rust_float_ok (ascii_of_str l) then Some l else None
 
 let () =
+  (* jeq: two documents denote equal values iff their canonical dumps agree (members in order, numbers by bits) *)
+  register "jeq" (function [a; b] ->
+    (match Json.xparse Json.xmax_depth (str_of_hex a), Json.xparse Json.xmax_depth (str_of_hex b) with
+     | Prelude.Ok x, Prelude.Ok y -> let e = (show (Prelude.Ok x) = show (Prelude.Ok y)) in Printf.sprintf "eq=%d ne=%d" (if e then 1 else 0) (if e then 0 else 1)
+     | _ -> "err")
+    | _ -> "BADARGS");
   register "jparse" (function [t] -> show (Json.xparse Json.xmax_depth (str_of_hex t)) | _ -> "BADARGS");
   register "jparsed" (function [d; t] -> show (Json.xparse (n_of_int (int_of_string d)) (str_of_hex t)) | _ -> "BADARGS");
   register "jparse_old" (function [t] -> show (Json.parse_max_depth fparse_legacy true Json.xmax_depth (str_of_hex t)) | _ -> "BADARGS");
